@@ -7,9 +7,12 @@ def shapes(tier):
     b = CrlShape()
     out = [b, replace(b, revoked=(0,), invalidity=1), replace(b, revoked=(1,), invalidity=1), replace(b, revoked=(3,)), replace(b, idp=1),
            replace(b, idp=2, idp_uris=2), replace(b, idp=3, kid_len=4),
-           replace(b, revoked=(2, 0), invalidity=2, idp=2, issuer_ku=4, number_len=3, number_b0=0x80, serial_len=3, serial_b0=0xff)]
+           replace(b, revoked=(2, 0), invalidity=2, idp=2, issuer_ku=4, number_len=3, number_b0=0x80, serial_len=3, serial_b0=0xff),
+           # a serial that fills RFC 5280's 20 octets with the top bit set: 21 content octets in the entry, the same value as in the certificate
+           replace(b, revoked=(2,), serial_len=20, serial_b0=0x80)]
     if tier == "thorough":
-        out += [replace(b, revoked=(0,)), replace(b, revoked=(2,)), replace(b, revoked=(1,)), replace(b, revoked=(3,), invalidity=1), replace(b, kid_len=4, revoked=(5,))]
+        out += [replace(b, revoked=(2,), serial_len=20, serial_b0=0x7f), replace(b, revoked=(1,), serial_len=21, serial_b0=0xff), replace(b, revoked=(2,), serial_len=19, serial_b0=0x80),
+                replace(b, revoked=(0,)), replace(b, revoked=(2,)), replace(b, revoked=(1,)), replace(b, revoked=(3,), invalidity=1), replace(b, kid_len=4, revoked=(5,))]
     if tier == "thorough":
         for r in range(4, 11):
             out.append(replace(b, revoked=(r,)))
